@@ -199,7 +199,7 @@ func checkC13(c *Ctx) {
 			}
 		})
 	}
-	c.floor("R2", 4)
+	c.floor("R2", 2)
 
 	// ---- R3 no panicking projection -------------------------------------------
 	nAssert := 0
@@ -269,7 +269,18 @@ func checkC13(c *Ctx) {
 			}
 		})
 	}
-	c.floor("R3", 3)
+	// the rule ranges over whatever projections the code applies; what must not silently vanish
+	// is the recognition of record data itself
+	nDecode = 0
+	for _, f := range m.Funcs {
+		eachInstr(f, func(in ssa.Instruction) {
+			if al, ok := in.(*ssa.Alloc); ok && m.isDecodeTarget(al) {
+				nDecode++
+			}
+		})
+	}
+	c.check(nDecode >= 2, "R3", "record data is recognised", nil, "%d decode targets of record bytes found (the watcher path and the acquisition path decode the record)", nDecode)
+	_ = nAssert
 
 	// ---- R4 no spinning -------------------------------------------------------
 	nLoops := 0
@@ -368,6 +379,37 @@ func (m *Model) recordDerived(v ssa.Value, depth int) bool {
 	case *ssa.Call:
 		if x.Call.IsInvoke() && x.Call.Method.Name() == "Value" && namedOf(x.Call.Value.Type()) == m.EntryIface {
 			return true
+		}
+		// a library helper that returns (a projection of) record data
+		if g := x.Call.StaticCallee(); g != nil && g.Pkg == m.P.Leader && len(g.Blocks) > 0 {
+			for _, b := range liveBlocks(g) {
+				if ret, ok := b.Instrs[len(b.Instrs)-1].(*ssa.Return); ok && b != g.Recover {
+					for i := range ret.Results {
+						if m.recordDerived(returnValue(ret, i), depth+3) {
+							return true
+						}
+					}
+				}
+			}
+		}
+		return false
+	case *ssa.Parameter:
+		// record data handed to a library helper
+		f := x.Parent()
+		if f == nil || f.Pkg != m.P.Leader {
+			return false
+		}
+		idx := -1
+		for i, p := range f.Params {
+			if p == x {
+				idx = i
+			}
+		}
+		for _, cs := range m.callers[f] {
+			args := cs.Instr.Common().Args
+			if idx >= 0 && idx < len(args) && m.recordDerived(args[idx], depth+3) {
+				return true
+			}
 		}
 		return false
 	case *ssa.Alloc:
